@@ -94,7 +94,7 @@ Proof. destruct ev; cbn [ready_step]; repeat dmatch; cbn [fst]; rewrite ?reg_ids
 
 Ltac dmh H := match type of H with context [match ?x with _ => _ end] => destruct x eqn:? end.
 
-Lemma c09_step_ids c0 tdrv q o x q' : c09_step c0 tdrv q o x = Next q' -> ids_step q q'.
+Lemma c09_step_ids c0 tdrv full q o x q' : c09_step c0 tdrv full q o x = Next q' -> ids_step q q'.
 Proof. intros H. destruct x as [[r cbs] cmds]. destruct o; cbn [c09_step] in H.
   - (* Add *) repeat dmh H; try discriminate; inversion H; subst; try (left; reflexivity).
     right. cbn [set_qmax set_regs q_regs q_max]. unfold reg_ids. rewrite map_app. cbn. eexists. split; [reflexivity|].
@@ -103,6 +103,7 @@ Proof. intros H. destruct x as [[r cbs] cmds]. destruct o; cbn [c09_step] in H.
   - (* DropHandle *) left. repeat dmh H; try discriminate; inversion H; subst; cbn [set_regs set_qmax q_regs]; rewrite ?reg_ids_rset; reflexivity.
   - (* Peek *) left. repeat dmh H; try discriminate; inversion H; subst; reflexivity.
   - (* Close *) left. repeat dmh H; try discriminate; inversion H; subst; reflexivity.
+  - left. inversion H; subst. reflexivity.
   - left. inversion H; subst. reflexivity.
   - left. inversion H; subst. reflexivity.
   - left. inversion H; subst. reflexivity.
@@ -125,8 +126,8 @@ Proof. intros F N [H|(id & H & Hlt)]; rewrite H; auto. apply NoDup_snoc; auto.
   intros Hin. rewrite Forall_forall in F. specialize (F _ Hin). lia. Qed.
 
 (* which registrations the automaton holds after a duty cycle / a close *)
-Lemma c09_step_regs c0 tdrv q o x q' :
-  c09_step c0 tdrv q o x = Next q' -> q_closed q = false ->
+Lemma c09_step_regs c0 tdrv full q o x q' :
+  c09_step c0 tdrv full q o x = Next q' -> q_closed q = false ->
   q_regs q' = match o with DoWork (BEvent ev) => match fst (fst x) with Ok _ => fst (ready_step ev q) | _ => q_regs q end
               | DoWork _ | Close => q_regs q | _ => q_regs q' end.
 Proof. intros H Hc. destruct x as [[r cbs] cmds]. destruct o; try reflexivity; cbn [c09_step fst] in *.
@@ -216,24 +217,25 @@ Proof. intros H M Hc. rewrite existsb_close, H. unfold delta. rewrite Hc. destru
 
 Lemma ctrs_run c0 tdrv tis ops : forall q s,
   inv s -> Rel c0 q s -> NoDup (reg_ids (q_regs q)) ->
-  c10_ctrs_run c0 tdrv q ops (snd (run (mkCfg tdrv tis) s ops)) = true.
+  c10_ctrs_run c0 tdrv (ring_full s) q ops (snd (run (mkCfg tdrv tis) s ops)) = true.
 Proof. induction ops as [|o ops IH]; intros q s I R Hn; cbn; auto.
   destruct (sim_step c0 tdrv tis q s o I R) as (q' & Hs & R').
   pose proof (step_inv (mkCfg tdrv tis) s o I) as I'.
   pose proof (step_close_count (mkCfg tdrv tis) s o I) as Hcount. pose proof (step_closed_mono (mkCfg tdrv tis) s o I) as Hmono.
   pose proof (closing_count (mkCfg tdrv tis) s o I) as Hcc.
-  pose proof (c09_step_ids _ _ _ _ _ _ Hs) as Hids. pose proof (ids_step_nodup q q' (R_ids _ _ _ R) Hn Hids) as Hn'.
-  pose proof (c09_step_regs _ _ _ _ _ _ Hs) as Hregs.
+  pose proof (c09_step_ids _ _ _ _ _ _ _ Hs) as Hids. pose proof (ids_step_nodup q q' (R_ids _ _ _ R) Hn Hids) as Hn'.
+  pose proof (c09_step_regs _ _ _ _ _ _ _ Hs) as Hregs.
   assert (Hev : forall ev, o = DoWork (BEvent ev) -> exists l, fst (fst (snd (step (mkCfg tdrv tis) s o))) = Ok l).
   { intros ev ->. cbn [step]. unfold do_work. pose proof (on_event_no_hang ev s) as Y1. destruct (on_event ev s) as [[s1 cbs1] h1]. cbn in Y1. subst.
     pose proof (heartbeat_check_no_hang (mkCfg tdrv tis) s1) as Y. destruct (heartbeat_check (mkCfg tdrv tis) s1) as [[[s2 cbs2] h2] rr]. cbn in Y. subst. cbn. eauto. }
   pose proof (fun ev (H : o = DoWork (BEvent ev)) => sim_event c0 q s ev I (rel_to_c _ _ _ R)) as Hsim.
   pose proof (fun ev => on_event_closed_cases ev s) as Hcases.
   pose proof (step_closed_same (mkCfg tdrv tis) s o) as Hsame.
+  pose proof (step_ring_full (mkCfg tdrv tis) s o) as Hrf.
   destruct (step (mkCfg tdrv tis) s o) as [s1 [[r cbs] cmds]] eqn:Es. cbn [fst snd] in *.
   specialize (IH q' s1 I' R' Hn'). destruct (run (mkCfg tdrv tis) s1 ops) as [s2 xs]. cbn [snd] in *.
   rewrite Hs. cbn [fst snd]. fold (is_ctr_event o).
-  destruct (negb (q_closed q) && existsb is_close_cb cbs && negb (is_ctr_event o)) eqn:Eg; [|cbn [andb]; exact IH].
+  destruct (negb (q_closed q) && existsb is_close_cb cbs && negb (is_ctr_event o)) eqn:Eg; [|cbn [andb]; rewrite <- Hrf; exact IH].
   apply andb_prop in Eg. destruct Eg as [Eg E3]. apply andb_prop in Eg. destruct Eg as [E1 E2].
   apply Bool.negb_true_iff in E1, E3. assert (Hc : closed s = false) by (rewrite <- (R_closed _ _ _ R); exact E1).
   assert (Hc1 : closed s1 = true) by (rewrite <- (closed_flag_after s s1 cbs Hcount Hmono Hc); exact E2).
@@ -251,8 +253,8 @@ Proof. induction ops as [|o ops IH]; intros q s I R Hn; cbn; auto.
         * destruct (Hcases e Hc) as [Hy|(cid & -> & _)]; [congruence|]. cbn [ready_step fst]. apply relc_set_same_regs. apply rel_to_c. exact R.
         * exact RC. }
   pose proof (counters_closed_ok c0 (set_regs (q_regs q') q) (pre o s) cbs HR Hp Hn' Hu) as Hok. cbn [set_regs q_regs] in Hok.
-  rewrite Hok. cbn [negb andb]. exact IH. Qed.
+  rewrite Hok. cbn [negb andb]. rewrite <- Hrf. exact IH. Qed.
 
 (* the counter judge of the C10 oracle holds on the model's own observations, for every history *)
-Theorem c10_ctrs_model c0 now0 tdrv tis ops : c10_ctrs_run c0 tdrv (oinit c0 now0) ops (run_obs c0 now0 tdrv tis ops) = true.
-Proof. unfold run_obs. apply ctrs_run; [apply init_inv|apply rel_init|constructor]. Qed.
+Theorem c10_ctrs_model c0 now0 tdrv tis ops : c10_ctrs_run c0 tdrv false (oinit c0 now0) ops (run_obs c0 now0 tdrv tis ops) = true.
+Proof. unfold run_obs. apply (ctrs_run c0 tdrv tis ops (oinit c0 now0) (init c0 now0)); [apply init_inv|apply rel_init|constructor]. Qed.
